@@ -1,5 +1,6 @@
 import Autog.Model.Phase5
 import Autog.Lemmas.BreakMergeChains
+import Autog.Lemmas.Frame
 /-! # C05 — edges attach to their end nodes; the arrow flag marks the target
 
     Theorems about the router formulas of the model (key `T:phase5`): whatever the chain of nodes `ns` of a route, the
@@ -71,5 +72,64 @@ theorem C05_attachment_points (g : G) (n : Nat) :
     endPoint g n = ((g.node n).x + (g.node n).w / 2, (g.node n).y) := ⟨rfl, rfl⟩
 
 theorem C05_route_is_chain : type_of% @BreakMergeChains.reduce_chain := @BreakMergeChains.reduce_chain
+
+/-! ## the Straight router as a whole: what every routed edge holds when the router returns -/
+
+theorem straight_setPts (g : G) (e : Nat) (p : List Pt) (a b : Nat) : straight (setPts g e p) a b = straight g a b := rfl
+
+theorem pts_setPts (g : G) (e e' : Nat) (p : List Pt) :
+    ((setPts g e p).edge e').pts = if e = e' ∧ e' < g.edges.size then p else (g.edge e').pts := by
+  unfold setPts
+  rw [G.edge_modEdge]
+  split <;> rfl
+
+theorem routeStraight_spec : ∀ (routes : List (Nat × List Nat)) (g g' : G), routeStraight g routes = .ok g' →
+    (routes.map (·.1)).Nodup → (∀ r ∈ routes, r.1 < g.edges.size) →
+    (∀ r ∈ routes, (g'.edge r.1).pts = straight g r.2.head! r.2.getLast!) ∧
+    (∀ e, e ∉ routes.map (·.1) → (g'.edge e).pts = (g.edge e).pts) ∧ g'.edges.size = g.edges.size
+  | [], g, g', h, _, _ => by
+    simp only [routeStraight, List.foldlM_nil, pure, Except.pure, Except.ok.injEq] at h
+    subst h; exact ⟨fun r hr => (by cases hr), fun _ _ => rfl, rfl⟩
+  | r :: routes, g, g', h, hnd, hb => by
+    unfold routeStraight at h
+    simp only [List.foldlM_cons, bind, Except.bind] at h
+    split at h
+    · cases h
+    · rename_i g1 hg1
+      split at hg1
+      · cases hg1
+      · simp only [pure, Except.pure, Except.ok.injEq] at hg1
+        subst hg1
+        have hnd' := List.nodup_cons.1 (by simpa using hnd : (r.1 :: routes.map (·.1)).Nodup)
+        have hsz : (setPts g r.1 (straight g r.2.head! r.2.getLast!)).edges.size = g.edges.size := by simp [setPts]
+        obtain ⟨h1, h2, h3⟩ := routeStraight_spec routes _ g' h hnd'.2
+          (fun r' hr' => by rw [hsz]; exact hb r' (List.mem_cons_of_mem _ hr'))
+        refine ⟨fun r' hr' => ?_, fun e he => ?_, h3.trans hsz⟩
+        · rcases List.mem_cons.1 hr' with rfl | hr'
+          · rw [h2 _ hnd'.1, pts_setPts]
+            simp [hb _ (List.mem_cons_self ..)]
+          · rw [h1 r' hr']; rfl
+        · have he' : e ∉ routes.map (·.1) := fun hm => he (by simp only [List.map_cons]; exact List.mem_cons_of_mem _ hm)
+          have hne : r.1 ≠ e := fun e' => he (by simp [e'])
+          rw [h2 e he', pts_setPts]
+          simp [hne]
+
+/-- C05 (Straight), for the router as a whole: when it returns, EVERY routed edge holds exactly two points — the bottom centre of
+    the first node of its chain and the top centre of the last — measured in the coordinates of the state the router returns
+    (node geometry is untouched by routing), and edges that are not routed keep what they had -/
+theorem C05_straight_router (g g' : G) (routes : List (Nat × List Nat)) (h : routeStraight g routes = .ok g')
+    (hnd : (routes.map (·.1)).Nodup) (hb : ∀ r ∈ routes, r.1 < g.edges.size) :
+    ∀ r ∈ routes, (g'.edge r.1).pts = [startPoint g' r.2.head!, endPoint g' r.2.getLast!] := by
+  intro r hr
+  have hgeo := routeStraight_geom g g' routes h
+  rw [(routeStraight_spec routes g g' h hnd hb).1 r hr]
+  have hn : ∀ n, g'.node n = g'.node n := fun _ => rfl
+  have hx : ∀ n, (g'.node n).x = (g.node n).x ∧ (g'.node n).y = (g.node n).y ∧ (g'.node n).w = (g.node n).w ∧
+      (g'.node n).h = (g.node n).h := by
+    intro n
+    have := hgeo.geom n
+    simp only [Node.geom, Prod.mk.injEq] at this
+    exact ⟨this.2.1, this.2.2.1, this.2.2.2.1, this.2.2.2.2.1⟩
+  simp only [straight, startPoint, endPoint, (hx _).1, (hx _).2.1, (hx _).2.2.1, (hx _).2.2.2]
 
 end Autog
